@@ -12,6 +12,9 @@ pub fn scenario(g: &mut G, ctx: &RunCtx) -> RunReport {
     let mut plan = bodyx::gen_plan(g, max);
     plan.faults.read_eintr.clear();
     plan.rereads = 0;
+    // the streaming text decoder is not a C19 subject: it legitimately looks ahead (byte order mark,
+    // incomplete multi-byte sequences)
+    plan.via_text_reader = false;
     plan.read_timeout_ms = 3_600_000;
     if !matches!(plan.read_mode, ReadMode::Sizes(..)) {
         let (v, n) = gen::read_sizes(g);
